@@ -708,3 +708,8 @@ func (p *Project) AutomanFile() string {
 	}
 	return sb.String()
 }
+
+// DailyColumns, YearlyColumns, CropColumns: the output configurations as written.
+func (p *Project) DailyColumns() []OutCol  { return p.dailyCols() }
+func (p *Project) YearlyColumns() []OutCol { return p.yearlyCols() }
+func (p *Project) CropColumns() []OutCol   { return p.cropCols() }
